@@ -8,6 +8,7 @@ import (
 	"encoding/json"
 	"fmt"
 	"io"
+	"strconv"
 	"time"
 
 	"github.com/scigolib/hdf5/internal/core"
@@ -37,6 +38,10 @@ func (m *c14File) ReadAt(p []byte, off int64) (int, error) {
 	}
 	return n, nil
 }
+
+// c14Err renders an error as pure ASCII (names are arbitrary bytes; the driver splits lines on
+// several Unicode line separators).
+func c14Err(err error) string { return strconv.QuoteToASCII(err.Error()) }
 
 type c14Alloc struct{ next uint64 }
 
@@ -120,7 +125,7 @@ func c14View(bt *structures.WritableBTreeV2, sb *core.Superblock) map[string]int
 		"hdr": hex.EncodeToString(hdr), "leaf": hex.EncodeToString(leaf),
 	}
 	if err != nil {
-		v["encode_err"] = err.Error()
+		v["encode_err"] = c14Err(err)
 	}
 	if s.LazyOn {
 		v["lazy"] = []int{s.Underflow, s.Pending}
@@ -132,7 +137,7 @@ func c14View(bt *structures.WritableBTreeV2, sb *core.Superblock) map[string]int
 func c14Raw(f *c14File, addr uint64, sb *core.Superblock) map[string]interface{} {
 	nroot, total, root, ids, err := core.VerifReadBTreeV2Raw(f, addr, sb)
 	if err != nil {
-		return map[string]interface{}{"err": err.Error()}
+		return map[string]interface{}{"err": c14Err(err)}
 	}
 	hs := make([]string, len(ids))
 	for i := range ids {
@@ -156,7 +161,7 @@ func c14Run(c *c14Case) (interface{}, error) {
 	var errs []string
 	note := func(i int, err error) {
 		if len(errs) < 8 {
-			errs = append(errs, fmt.Sprintf("%d:%v", i, err))
+			errs = append(errs, fmt.Sprintf("%d:%s", i, c14Err(err)))
 		}
 	}
 	reload := func(i int, addr uint64) bool {
@@ -231,7 +236,7 @@ func c14Run(c *c14Case) (interface{}, error) {
 	}
 	t.stop()
 	out := map[string]interface{}{"res": res, "errs": errs, "state": c14View(t.bt, sb), "next": alloc.next}
-	if len(file.data) <= 24000 {
+	if len(file.data) <= 5000 {
 		out["file"] = hex.EncodeToString(file.data)
 	}
 	out["filelen"] = len(file.data)
@@ -241,14 +246,14 @@ func c14Run(c *c14Case) (interface{}, error) {
 	fa := &c14Alloc{next: 64}
 	addr, err := t.bt.WriteToFile(ff, fa, sb)
 	if err != nil {
-		out["final_err"] = err.Error()
+		out["final_err"] = c14Err(err)
 		return out, nil
 	}
 	out["final_file"] = hex.EncodeToString(ff.data)
 	out["final_addr"] = addr
 	nb := structures.NewWritableBTreeV2(c.NS)
 	if err := nb.LoadFromFile(ff, addr, sb); err != nil {
-		out["final_load_err"] = err.Error()
+		out["final_load_err"] = c14Err(err)
 	} else {
 		out["final_loaded"] = c14View(nb, sb)
 	}
@@ -306,7 +311,7 @@ func init() {
 		out := map[string]interface{}{}
 		if err := bt.LoadFromFile(f, c.Addr, sb); err != nil {
 			out["ok"] = false
-			out["err"] = err.Error()
+			out["err"] = c14Err(err)
 		} else {
 			out["ok"] = true
 			out["state"] = c14View(bt, sb)
